@@ -8,6 +8,7 @@ os.environ['VERIF_NO_CANON'] = '1'
 from sa import canon  # noqa: E402
 from sa.core import Tree  # noqa: E402
 tree = Tree()
+canon.normalise_calls({rel: mod.tree for rel, mod in tree.modules.items()})
 ref = {}
 for rel, mod in sorted(tree.modules.items()):
     canon.normalise_module(mod.tree)
